@@ -59,14 +59,17 @@ type scenario struct {
 	// Pre-populated state (start-up recovery families): the first PreSrc blobs are in the source
 	// before any handler exists (no queue row, the hub never saw them); of those, every
 	// PreDstEvery-th is at the destination too; DstExtra further blobs are at the destination only.
-	PreSrc      int        `json:"pre_src,omitempty"`
-	PreDstEvery int        `json:"pre_dst_every,omitempty"`
-	DstExtra    int        `json:"dst_extra,omitempty"`
-	NBlobs      int        `json:"n_blobs,omitempty"` // when Refs is abbreviated
-	blobs       []sto.Blob // not serialised
-	hist        []int      // the full history (History is abbreviated in witnesses of big scenarios)
-	extra       []sto.Blob // destination-only blobs
-	big         bool       // holds much memory: stores are emptied when the scenario is over
+	PreSrc      int `json:"pre_src,omitempty"`
+	PreDstEvery int `json:"pre_dst_every,omitempty"`
+	DstExtra    int `json:"dst_extra,omitempty"`
+	NBlobs      int `json:"n_blobs,omitempty"` // when Refs is abbreviated
+	// Twin: a second sync handler (own memory destination "dst2" and queue "queue2") is attached to
+	// the same source object; every acknowledged blob must reach both destinations.
+	Twin  bool       `json:"twin,omitempty"`
+	blobs []sto.Blob // not serialised
+	hist  []int      // the full history (History is abbreviated in witnesses of big scenarios)
+	extra []sto.Blob // destination-only blobs
+	big   bool       // holds much memory: stores are emptied when the scenario is over
 }
 
 func clean() incSpec { return incSpec{Uploads: -1, FreezeAt: -1} }
@@ -576,6 +579,40 @@ func generate(rng *rand.Rand, thorough bool) []*scenario {
 		}
 	}
 
+	// ---- family "twin": two sync handlers on one source (one hub, two receive hooks).
+	{
+		type tv struct {
+			name   string
+			faults []faultSpec
+			crash  bool
+		}
+		variants := []tv{
+			{"clean", nil, false},
+			{"queue2-set-error", []faultSpec{{Layer: "queue2", Op: "Set", Mode: "error", Nth: []int{0}}}, false},
+			{"queue-set-error", []faultSpec{{Layer: "queue", Op: "Set", Mode: "error", Nth: []int{1}}}, false},
+			{"both-destinations-down+restart", []faultSpec{
+				{Layer: "dst", Op: "ReceiveBlob", Mode: "error", Nth: seq(40)},
+				{Layer: "dst2", Op: "ReceiveBlob", Mode: "error", Nth: seq(40)}}, true},
+		}
+		if thorough {
+			variants = append(variants,
+				tv{"queue2-set-error-after-effect", []faultSpec{{Layer: "queue2", Op: "Set", Mode: "error-after-effect", Nth: []int{0, 2}}}, false},
+				tv{"dst2-down+restart", []faultSpec{{Layer: "dst2", Op: "ReceiveBlob", Mode: "error", Nth: seq(40)}}, true},
+				tv{"queue2-set-error+restart", []faultSpec{{Layer: "queue2", Op: "Set", Mode: "error", Nth: []int{1}},
+					{Layer: "dst", Op: "ReceiveBlob", Mode: "error", Nth: seq(40)}}, true},
+			)
+		}
+		for _, v := range variants {
+			bl := blobsFor(rng, "memory", 3, tag())
+			first := incSpec{Uploads: -1, FreezeAt: -1, RetryNow: true, Faults: v.faults, CrashNow: v.crash}
+			incs := []incSpec{first}
+			if v.crash {
+				incs = append(incs, clean())
+			}
+			add(&scenario{ID: "T/" + v.name, Family: "twin", Kind: "twin-" + v.name, Dest: "memory", History: seq(3), Incs: incs, Twin: true}, bl)
+		}
+	}
+
 	// ---- family "startup-recovery": validateOnStart / fullSyncOnStart over a source that holds
 	// blobs the hub never announced, a destination that has some of them and some of its own;
 	// uploads keep arriving.  Everything in the source must reach the destination.
@@ -586,21 +623,26 @@ func generate(rng *rand.Rand, thorough bool) []*scenario {
 			pre, ups    int
 			every, xtra int
 			afterCrash  bool
+			hold        int
 		}
 		variants := []sv{
-			{"validate", "memory", 700, 3, 2, 150, false},
-			{"validate", "index", 5, 2, 0, 0, false},
-			{"full-sync", "memory", 0, 3, 0, 0, false},
-			{"full-sync", "memory", 6, 3, 2, 2, true},
-			{"full-sync", "index", 5, 2, 0, 0, false},
+			{"validate", "memory", 700, 3, 2, 150, false, 0},
+			{"validate", "index", 5, 2, 0, 0, false, 0},
+			{"full-sync", "memory", 0, 3, 0, 0, false, 0},
+			{"full-sync", "memory", 6, 3, 2, 2, true, 0},
+			{"full-sync", "index", 5, 2, 0, 0, false, 0},
+			// more source blobs than one round of the copy loop takes, behind a destination that takes
+			// time per write
+			{"full-sync-big", "memory", 1400, 3, 0, 0, false, 5},
 		}
 		if thorough {
 			variants = append(variants,
-				sv{"validate", "memory", 2600, 5, 3, 900, true},
-				sv{"validate", "memory", 40, 4, 1, 0, false}, // destination already complete
-				sv{"validate", "index", 5, 3, 0, 0, true},
-				sv{"full-sync", "memory", 1400, 3, 2, 50, false},
-				sv{"full-sync", "index", 5, 3, 0, 0, true},
+				sv{"validate", "memory", 2600, 5, 3, 900, true, 0},
+				sv{"validate", "memory", 40, 4, 1, 0, false, 0}, // destination already complete
+				sv{"validate", "index", 5, 3, 0, 0, true, 0},
+				sv{"full-sync", "memory", 900, 3, 2, 50, false, 5},
+				sv{"full-sync-big", "memory", 2500, 3, 2, 50, true, 0}, // the workers race the feeder
+				sv{"full-sync", "index", 5, 3, 0, 0, true, 0},
 			)
 		}
 		for i, v := range variants {
@@ -615,7 +657,7 @@ func generate(rng *rand.Rand, thorough bool) []*scenario {
 			for j := 0; j < v.ups; j++ {
 				hist = append(hist, v.pre+j)
 			}
-			rec := incSpec{Uploads: -1, FreezeAt: -1, Validate: v.mode == "validate", FullSync: v.mode == "full-sync"}
+			rec := incSpec{Uploads: -1, FreezeAt: -1, Validate: v.mode == "validate", FullSync: strings.HasPrefix(v.mode, "full-sync"), HoldDst: v.hold}
 			incs := []incSpec{rec}
 			if v.afterCrash {
 				// rows are pending from a crashed plain incarnation; the recovering incarnation gets the rest
@@ -624,7 +666,7 @@ func generate(rng *rand.Rand, thorough bool) []*scenario {
 					rec,
 				}
 			}
-			kind := map[string]string{"validate": "validate-on-start", "full-sync": "full-sync-on-start"}[v.mode]
+			kind := map[string]string{"validate": "validate-on-start", "full-sync": "full-sync-on-start", "full-sync-big": "full-sync-over-one-batch"}[v.mode]
 			sc := &scenario{
 				ID: fmt.Sprintf("V/%s/%s/%d-pre%d", v.mode, v.dest, i, v.pre), Family: "startup-recovery", Kind: kind, Dest: v.dest, History: hist, Incs: incs,
 				PreSrc: v.pre, PreDstEvery: v.every, DstExtra: v.xtra, big: v.pre > 500,
